@@ -66,24 +66,30 @@ type Engine struct {
 	nonNilGlobals map[string]bool
 	loaded        []*packages.Package
 	declared      map[string]bool
+	assumptions   []string
+	fieldWriters  map[string]map[string]map[*ssa.Function]bool
 }
 
 type FuncExec struct {
-	eng          *Engine
-	fn           *ssa.Function
-	contract     *FuncContract
-	name         string
-	headers      map[*ssa.BasicBlock]int
-	loopBody     map[*ssa.BasicBlock]map[*ssa.BasicBlock]bool
-	counter      int
-	modKeys      map[string]bool
-	modAll       bool
-	havocGens    map[string]bool
-	paths        int
-	siteOrd      map[ssa.Instruction]string
-	sweep        bool // no contract: panic-class obligations only
-	idom         map[*ssa.BasicBlock]*ssa.BasicBlock
-	assertAnchor map[ssa.Instruction][]*AssertAt
+	eng            *Engine
+	fn             *ssa.Function
+	contract       *FuncContract
+	name           string
+	headers        map[*ssa.BasicBlock]int
+	loopBody       map[*ssa.BasicBlock]map[*ssa.BasicBlock]bool
+	counter        int
+	modKeys        map[string]bool
+	modAll         bool
+	havocGens      map[string]bool
+	canaryCount    map[string]int
+	localCellsDone bool
+	localCellList  []*ssa.Alloc
+	paths          int
+	siteOrd        map[ssa.Instruction]string
+	sweep          bool // no contract: panic-class obligations only
+	idom           map[*ssa.BasicBlock]*ssa.BasicBlock
+	assertAnchor   map[ssa.Instruction][]*AssertAt
+	ghostAnchor    map[ssa.Instruction][]*GhostSet
 }
 
 func (fx *FuncExec) modified(key string) bool {
@@ -270,6 +276,9 @@ type Ret struct {
 type Exec struct {
 	eng *Engine
 	fx  *FuncExec
+	// callee of the contract call being applied (nil: interface method, func value or body-less
+	// extern) — decides which private types a `world` frame leaves alone
+	curCallee *ssa.Function
 }
 
 // verifyFunction generates all obligations of one function.
@@ -290,7 +299,12 @@ func (e *Engine) verifyFunction(fn *ssa.Function, sweep bool) (err error) {
 	fx.scanMods(fn, 0, map[*ssa.Function]bool{})
 	if fx.contract != nil {
 		for _, gs := range fx.contract.GhostSets {
-			fx.modKeys["ghost:"+gs.Ghost] = true
+			if gs.Ghost != "" {
+				fx.modKeys["ghost:"+gs.Ghost] = true
+			}
+			for _, hk := range gs.HavocKeys {
+				fx.modKeys[hk] = true
+			}
 		}
 	}
 	x := &Exec{eng: e, fx: fx}
@@ -359,6 +373,9 @@ func (x *Exec) entryState(cut *ssa.BasicBlock) *State {
 	}
 	for _, fv := range fn.FreeVars {
 		st.env[fv] = st.named(fv.Type(), "fv:"+fv.Name())
+		if constCell(fv) {
+			st.markConst(st.env[fv].T)
+		}
 	}
 	x.assumeGlobalInv(st)
 	// captured variables are addresses of cells: never nil
@@ -412,7 +429,7 @@ func (x *Exec) entryState(cut *ssa.BasicBlock) *State {
 				continue
 			}
 			for _, ins := range b.Instrs {
-				if a, ok := ins.(*ssa.Alloc); ok && spilledParam(a) {
+				if a, ok := ins.(*ssa.Alloc); ok && (spilledParam(a) || constCell(a) || fx.singleStoreBefore(a, cut)) {
 					for _, r := range *a.Referrers() {
 						if sto, ok := r.(*ssa.Store); ok && sto.Addr == a {
 							ref := x.get(st, a)
@@ -430,6 +447,34 @@ func (x *Exec) entryState(cut *ssa.BasicBlock) *State {
 						}
 					}
 				}
+			}
+		}
+		// deferred calls registered on the way to the header (outside every loop) are still pending
+		var chain []*ssa.BasicBlock
+		for d := cut.Idom(); d != nil; d = d.Idom() {
+			chain = append(chain, d)
+		}
+		for i := len(chain) - 1; i >= 0; i-- {
+			b := chain[i]
+			inLoop := false
+			for _, body := range fx.loopBody {
+				if body[b] {
+					inLoop = true
+				}
+			}
+			for _, ins := range b.Instrs {
+				d, ok := ins.(*ssa.Defer)
+				if !ok {
+					continue
+				}
+				if inLoop {
+					st.unsupported("defer inside a loop before a cut point")
+				}
+				var args []Value
+				for _, a := range d.Call.Args {
+					args = append(args, x.get(st, a))
+				}
+				st.defers = append(st.defers, deferred{call: d, args: args, fn: x.get(st, d.Call.Value)})
 			}
 		}
 		// branch conditions on the dominator chain whose edge dominates the header still hold
@@ -553,7 +598,7 @@ func (x *Exec) walk(st *State, fn *ssa.Function, b *ssa.BasicBlock, i int, prev 
 	}
 	for ; i < len(b.Instrs); i++ {
 		ins := b.Instrs[i]
-		if top && fx.contract != nil && len(fx.contract.Asserts) > 0 {
+		if top && fx.contract != nil && (len(fx.contract.Asserts) > 0 || fx.hasAnchoredGhost()) {
 			x.checkAsserts(st, b, ins)
 		}
 		switch ins := ins.(type) {
@@ -725,16 +770,47 @@ func (x *Exec) loopSpecCtx(st *State, hdr *ssa.BasicBlock, phiVals map[*ssa.Phi]
 
 // lookupLocal finds a local variable by source name among values whose block dominates at.
 func (x *Exec) lookupLocal(st *State, name string, at *ssa.BasicBlock) (Value, bool) {
+	return x.lookupLocalBefore(st, name, at, nil)
+}
+
+// lookupLocalBefore resolves a source-level variable name to its SSA value as of the point just
+// before instruction `before` of block `at` (the whole block when before is nil).
+func (x *Exec) lookupLocalBefore(st *State, name string, at *ssa.BasicBlock, before ssa.Instruction) (Value, bool) {
 	fn := x.fx.fn
-	var best ssa.Value
-	for _, b := range fn.Blocks {
-		if !(b == at || b.Dominates(at)) {
-			continue
+	// a captured variable is always named by its cell (write *v for its value), wherever the
+	// contract clause is evaluated
+	for _, fv := range fn.FreeVars {
+		if fv.Name() == name {
+			return st.env[fv], true
 		}
+	}
+	if strings.HasPrefix(name, "&") {
+		for _, b := range fn.Blocks {
+			if !(b == at || b.Dominates(at)) {
+				continue
+			}
+			for _, ins := range b.Instrs {
+				if a, ok := ins.(*ssa.Alloc); ok && a.Comment == name[1:] {
+					return x.get(st, a), true
+				}
+			}
+		}
+		return Value{}, false
+	}
+	var best ssa.Value
+	// dominators of `at` in execution order (entry first)
+	var chain []*ssa.BasicBlock
+	for d := at; d != nil; d = d.Idom() {
+		chain = append([]*ssa.BasicBlock{d}, chain...)
+	}
+	for _, b := range chain {
 		for _, ins := range b.Instrs {
+			if b == at && before != nil && ins == before {
+				break
+			}
 			switch v := ins.(type) {
 			case *ssa.Phi:
-				if v.Comment == name && b != at {
+				if v.Comment == name && (b != at || before != nil) {
 					best = v
 				}
 			case *ssa.Alloc:
@@ -743,7 +819,7 @@ func (x *Exec) lookupLocal(st *State, name string, at *ssa.BasicBlock) (Value, b
 				}
 			case *ssa.DebugRef:
 				if id, ok := v.Expr.(*ast.Ident); ok && id.Name == name && !v.IsAddr {
-					if _, isPhi := v.X.(*ssa.Phi); isPhi && v.X.(*ssa.Phi).Block() == at {
+					if _, isPhi := v.X.(*ssa.Phi); isPhi && v.X.(*ssa.Phi).Block() == at && before == nil {
 						continue
 					}
 					if u, isLoad := v.X.(*ssa.UnOp); isLoad && u.Op == token.MUL {
@@ -887,24 +963,32 @@ func (x *Exec) checkAsserts(st *State, b *ssa.BasicBlock, ins ssa.Instruction) {
 	fx := x.fx
 	if fx.assertAnchor == nil {
 		fx.assertAnchor = map[ssa.Instruction][]*AssertAt{}
-		for _, as := range fx.contract.Asserts {
-			var first ssa.Instruction
+		fx.ghostAnchor = map[ssa.Instruction][]*GhostSet{}
+		find := func(at string, nth int) ssa.Instruction {
+			seenLines := map[string]bool{}
+			count := 0
 			for _, bb := range fx.fn.Blocks {
 				for _, in := range bb.Instrs {
 					if _, isDbg := in.(*ssa.DebugRef); isDbg {
 						continue
 					}
-					txt, _ := fx.eng.srcLineFull(in.Pos())
-					if txt != "" && strings.Contains(txt, as.At) {
-						first = in
-						break
+					txt, where := fx.eng.srcLineFull(in.Pos())
+					if txt == "" || !strings.Contains(txt, at) || seenLines[where] {
+						continue
+					}
+					seenLines[where] = true
+					count++
+					if nth <= 1 || count == nth {
+						if nth <= 1 || count == nth {
+							return in
+						}
 					}
 				}
-				if first != nil {
-					break
-				}
 			}
-			if first != nil {
+			return nil
+		}
+		for _, as := range fx.contract.Asserts {
+			if first := find(as.At, as.Nth); first != nil {
 				fx.assertAnchor[first] = append(fx.assertAnchor[first], as)
 			} else {
 				fx.eng.mu.Lock()
@@ -912,8 +996,20 @@ func (x *Exec) checkAsserts(st *State, b *ssa.BasicBlock, ins ssa.Instruction) {
 				fx.eng.mu.Unlock()
 			}
 		}
+		for _, gs := range fx.contract.GhostSets {
+			if gs.At == "" {
+				continue
+			}
+			if first := find(gs.At, gs.Nth); first != nil {
+				fx.ghostAnchor[first] = append(fx.ghostAnchor[first], gs)
+			} else {
+				fx.eng.mu.Lock()
+				fx.eng.unsup[fx.name] = append(fx.eng.unsup[fx.name], "ghostset anchor not found: "+gs.At)
+				fx.eng.mu.Unlock()
+			}
+		}
 	}
-	for n, as := range fx.assertAnchor[ins] {
+	mkCtx := func() *SpecCtx {
 		names := x.paramNames(st, fx.contract)
 		sc := x.specCtx(st, st.heap, st.old, names)
 		sc.resolver = func(name string) (Value, bool) {
@@ -922,8 +1018,39 @@ func (x *Exec) checkAsserts(st *State, b *ssa.BasicBlock, ins ssa.Instruction) {
 					return st.env[phi], true
 				}
 			}
-			return x.lookupLocal(st, name, b)
+			return x.lookupLocalBefore(st, name, b, ins)
 		}
+		return sc
+	}
+	for _, gs := range fx.ghostAnchor[ins] {
+		sc := mkCtx()
+		// `old` inside an anchored ghost statement means "just before this statement"
+		sc.old = st.heap.clone()
+		if gs.Ghost == "" {
+			for _, hk := range gs.HavocKeys {
+				st.havocPrefix(hk)
+			}
+			continue
+		}
+		gd := x.eng.cs.Ghosts[gs.Ghost]
+		if gd == nil {
+			st.unsupported("ghostset of unknown ghost " + gs.Ghost)
+		}
+		a := sc.eval(gs.Arg)
+		if a.K == VAddr {
+			a = Value{K: VRef, T: a.A.Root}
+		}
+		v := sc.eval(gs.Val)
+		sort, _ := ghostSort(gd)
+		t := v.T
+		if sort == "Real" && v.K == VInt {
+			t = "(to_real " + t + ")"
+		}
+		h := st.heapTermIn(st.heap, "ghost:"+gd.Name, 1, sort)
+		st.heapSet("ghost:"+gd.Name, fmt.Sprintf("(store %s %s %s)", h, a.T, t))
+	}
+	for n, as := range fx.assertAnchor[ins] {
+		sc := mkCtx()
 		k := 0
 		for _, cj := range x.eng.cs.goals(as.C.E) {
 			k++
@@ -944,4 +1071,226 @@ func (e *Engine) srcLineFull(pos token.Pos) (string, string) {
 		return lines[p.Line-1], fmt.Sprintf("%s:%d", p.Filename, p.Line)
 	}
 	return "", ""
+}
+
+func (fx *FuncExec) hasAnchoredGhost() bool {
+	if fx.contract == nil {
+		return false
+	}
+	for _, gs := range fx.contract.GhostSets {
+		if gs.At != "" {
+			return true
+		}
+	}
+	return false
+}
+
+// cellUsesConst: every use of cell address v (an Alloc or FreeVar) is a load, a debug ref, or a
+// capture by a closure that again only loads it: nobody stores to it and it does not escape.
+func cellUsesConst(v ssa.Value, allowStore ssa.Instruction, depth int) bool {
+	refs := v.Referrers()
+	if refs == nil || depth > 6 {
+		return false
+	}
+	for _, r := range *refs {
+		switch u := r.(type) {
+		case *ssa.UnOp:
+			if u.Op != token.MUL {
+				return false
+			}
+		case *ssa.DebugRef:
+		case *ssa.Convert:
+			if !cellUsesConst(u, nil, depth+1) {
+				return false
+			}
+		case *ssa.ChangeType:
+			if !cellUsesConst(u, nil, depth+1) {
+				return false
+			}
+		case *ssa.Store:
+			if u != allowStore || u.Val == v {
+				return false
+			}
+		case *ssa.MakeClosure:
+			f := u.Fn.(*ssa.Function)
+			for i, b := range u.Bindings {
+				if b == v {
+					if i >= len(f.FreeVars) || !cellUsesConst(f.FreeVars[i], nil, depth+1) {
+						return false
+					}
+				}
+			}
+		default:
+			return false
+		}
+	}
+	return true
+}
+
+// constCell reports whether v is the address of a cell whose content never changes after the
+// function that owns it starts: the home of a never-reassigned parameter whose address is only
+// loaded from (directly or by closures capturing it). Such a cell is immutable for every
+// goroutine, so its content is a function of its identity (ccell_*).
+func constCell(v ssa.Value) bool {
+	switch a := v.(type) {
+	case *ssa.Alloc:
+		refs := a.Referrers()
+		if refs == nil {
+			return false
+		}
+		var spill *ssa.Store
+		for _, r := range *refs {
+			if s, ok := r.(*ssa.Store); ok && s.Addr == a {
+				if spill != nil {
+					return false
+				}
+				spill = s
+			}
+		}
+		if spill == nil || spill.Block() != a.Block() {
+			return false // (same block: the store runs exactly once per allocation of the cell)
+		}
+		// the single store happens before every other use of the cell
+		for _, r := range *refs {
+			if r == ssa.Instruction(spill) {
+				continue
+			}
+			if _, ok := r.(*ssa.DebugRef); ok {
+				continue
+			}
+			if r.Block() == spill.Block() {
+				if instrIndex(r) < instrIndex(spill) {
+					return false
+				}
+			} else if !spill.Block().Dominates(r.Block()) {
+				return false
+			}
+		}
+		return cellUsesConst(a, spill, 0)
+	case *ssa.FreeVar:
+		f := a.Parent()
+		p := f.Parent()
+		if p == nil {
+			return false
+		}
+		idx := -1
+		for i, fv := range f.FreeVars {
+			if fv == a {
+				idx = i
+			}
+		}
+		for _, b := range p.Blocks {
+			for _, ins := range b.Instrs {
+				if mc, ok := ins.(*ssa.MakeClosure); ok && mc.Fn == f && idx >= 0 && idx < len(mc.Bindings) {
+					return constCell(mc.Bindings[idx])
+				}
+			}
+		}
+	}
+	return false
+}
+
+func instrIndex(i ssa.Instruction) int {
+	for k, j := range i.Block().Instrs {
+		if j == i {
+			return k
+		}
+	}
+	return -1
+}
+
+// localCells: the Allocs of this function whose address is only loaded from, stored to or
+// used to address a field/element that is itself only loaded/stored — never passed, stored,
+// captured or converted. No other function can reach such a cell.
+func (fx *FuncExec) localCells() []*ssa.Alloc {
+	if fx.localCellsDone {
+		return fx.localCellList
+	}
+	fx.localCellsDone = true
+	if fx.fn == nil {
+		return nil
+	}
+	var ok func(v ssa.Value, depth int) bool
+	ok = func(v ssa.Value, depth int) bool {
+		refs := v.Referrers()
+		if refs == nil || depth > 4 {
+			return false
+		}
+		for _, r := range *refs {
+			switch u := r.(type) {
+			case *ssa.UnOp:
+				if u.Op != token.MUL {
+					return false
+				}
+			case *ssa.DebugRef:
+			case *ssa.Store:
+				if u.Addr != v {
+					return false
+				}
+			case *ssa.FieldAddr:
+				if !ok(u, depth+1) {
+					return false
+				}
+			case *ssa.IndexAddr:
+				if !ok(u, depth+1) {
+					return false
+				}
+			default:
+				return false
+			}
+		}
+		return true
+	}
+	for _, b := range fx.fn.Blocks {
+		for _, ins := range b.Instrs {
+			if a, isA := ins.(*ssa.Alloc); isA && ok(a, 0) {
+				if _, isArr := a.Type().(*types.Pointer).Elem().Underlying().(*types.Array); isArr {
+					continue
+				}
+				fx.localCellList = append(fx.localCellList, a)
+			}
+		}
+	}
+	return fx.localCellList
+}
+
+// singleStoreBefore: a is a local cell (see localCells) with exactly one whole-cell store in the
+// function, and that store dominates the loop header without lying in the loop's body: at the
+// header the cell still holds the stored value.
+func (fx *FuncExec) singleStoreBefore(a *ssa.Alloc, hdr *ssa.BasicBlock) bool {
+	isLocal := false
+	for _, c := range fx.localCells() {
+		if c == a {
+			isLocal = true
+		}
+	}
+	if !isLocal {
+		return false
+	}
+	var st *ssa.Store
+	var bad bool
+	var scan func(v ssa.Value, top bool)
+	scan = func(v ssa.Value, top bool) {
+		for _, r := range *v.Referrers() {
+			switch u := r.(type) {
+			case *ssa.Store:
+				if !top || st != nil {
+					bad = true // a second store, or a store into a field of the cell
+				}
+				st = u
+			case *ssa.FieldAddr:
+				scan(u, false)
+			case *ssa.IndexAddr:
+				scan(u, false)
+			}
+		}
+	}
+	scan(a, true)
+	if bad || st == nil {
+		return false
+	}
+	if !(st.Block() == hdr.Idom() || st.Block().Dominates(hdr)) || st.Block() == hdr {
+		return false
+	}
+	return !fx.loopBody[hdr][st.Block()]
 }
